@@ -74,6 +74,7 @@ type c20Coin struct {
 type c20Op struct {
 	Kind  string    `json:"kind"` // send | claim | spend | plen
 	Now   int64     `json:"now"`
+	Ns    int64     `json:"ns,omitempty"` // nanosecond part of the block time (the model counts whole seconds: everything goes through .Unix())
 	R     int       `json:"r"`
 	Coins []c20Coin `json:"coins,omitempty"`
 	Len   int64     `json:"len"` // lock-up length in seconds (send) or months of lock-up (claim, plen)
@@ -380,7 +381,7 @@ func probeTimes(a *c20Acc, now, unlock int64) []int64 {
 // ------------------------------------------------------------ execution
 
 func (w *c20World) exec(op c20Op) (cls Class, err error, plen int64) {
-	ctx := w.ctx.WithBlockTime(time.Unix(op.Now, 0).UTC())
+	ctx := w.ctx.WithBlockTime(time.Unix(op.Now, op.Ns).UTC())
 	coins := opCoins(op.Coins)
 	cls, err = Atomically(ctx, func(c sdk.Context) error {
 		switch op.Kind {
@@ -738,7 +739,7 @@ func c20GenCoins(r *Rng, macc *c20Acc, malformed bool) []c20Coin {
 		case 3:
 			return fmt.Sprint(1 + r.Intn(3))
 		default:
-			return r.BigBits(40 + r.Intn(180)).Add(big.NewInt(1), r.BigBits(40+r.Intn(180))).String()
+			return r.BigBits(40+r.Intn(180)).Add(big.NewInt(1), r.BigBits(40+r.Intn(180))).String()
 		}
 	}
 	n := r.Pick(55, 35, 10) + 1
@@ -830,6 +831,17 @@ func (g *c20Gen) op(s []c20Acc) c20Op {
 	r := g.r
 	g.advance(s)
 	op := c20Op{Now: g.now}
+	// block times are not whole seconds on a real chain; the lock-up arithmetic must floor them
+	switch r.Pick(3, 3, 1, 1, 1) {
+	case 1:
+		op.Ns = int64(r.Intn(1_000_000_000))
+	case 2:
+		op.Ns = 999_999_999
+	case 3:
+		op.Ns = 500_000_000
+	case 4:
+		op.Ns = 1
+	}
 	wSend, wClaim, wSpend, wPlen := 62, 10, 22, 6
 	if g.mode == mCalendar {
 		wSend, wClaim, wSpend, wPlen = 25, 50, 15, 10
@@ -1422,7 +1434,7 @@ func c20Run(seed uint64, idx, n, mode int, init []c20AccJ, ops []c20Op, cnt *Cou
 		if isClaim(op) || op.Kind == "plen" {
 			guess = 0
 			if op.Len >= 0 {
-				guess = w.ik.GetPeriodLength(time.Unix(op.Now, 0).UTC(), op.Len)
+				guess = w.ik.GetPeriodLength(time.Unix(op.Now, op.Ns).UTC(), op.Len)
 			}
 		}
 		if op.Kind == "spend" {
@@ -1711,7 +1723,7 @@ func runC20(o Opts) (*Result, error) {
 		n = c20DefaultL
 	}
 	res := &Result{Property: "C20", Seed: o.Seed,
-		Rule: "histories of " + fmt.Sprint(n) + " operations (SendTimeLockedCoinsToAccount, GetPeriodLength+SendTimeLockedCoinsToAccount as in claim.go, bank SendCoins by the recipients) generated from splitmix64(seed, history index) on a fresh app.TestApp whose recipients are a base account, two periodic vesting accounts with PRNG-chosen layouts and phases, a continuous and a delayed vesting account, a missing account and module accounts; a history is non-trivial when it contains a successful lock-up payout into a periodic vesting account that takes the insert-on-boundary, split or not-yet-started branch of the schedule merge; distinct by hash of initial accounts and operation list",
+		Rule:  "histories of " + fmt.Sprint(n) + " operations (SendTimeLockedCoinsToAccount, GetPeriodLength+SendTimeLockedCoinsToAccount as in claim.go, bank SendCoins by the recipients) generated from splitmix64(seed, history index) on a fresh app.TestApp whose recipients are a base account, two periodic vesting accounts with PRNG-chosen layouts and phases, a continuous and a delayed vesting account, a missing account and module accounts; a history is non-trivial when it contains a successful lock-up payout into a periodic vesting account that takes the insert-on-boundary, split or not-yet-started branch of the schedule merge; distinct by hash of initial accounts and operation list",
 		Extra: map[string]any{}}
 	cnt := NewCounters()
 
